@@ -1,8 +1,137 @@
+// Isolated execution for C17 / C18: a supervisor feeds script lines to a child
+// process; a case that kills the child (abort, stack overflow, out of memory,
+// watchdog) is recorded as such and the child is restarted.
+use serde_json::{Value, json};
+use std::io::{BufRead, BufReader, BufWriter, Write};
+use std::process::{Child, ChildStdin, ChildStdout, Command, Stdio};
+use std::sync::mpsc;
+use std::time::{Duration, Instant};
+
+const CASE_TIMEOUT: Duration = Duration::from_secs(8);
+
 pub fn main() {
-    eprintln!("worker: not built yet");
-    std::process::exit(2);
+    // child: one JSON command per line on stdin, one JSON event per line on stdout
+    unsafe {
+        // 4 GiB address space: a runaway allocation fails instead of taking the machine down
+        let lim = libc::rlimit { rlim_cur: 4 << 30, rlim_max: 4 << 30 };
+        libc::setrlimit(libc::RLIMIT_AS, &lim);
+        // no single file above 512 MiB (a damaged patch can ask for terabytes of zeroes): the write fails like a
+        // full disk would (EFBIG) instead of filling the sandbox
+        let fl = libc::rlimit { rlim_cur: 512 << 20, rlim_max: 512 << 20 };
+        libc::setrlimit(libc::RLIMIT_FSIZE, &fl);
+        libc::signal(libc::SIGXFSZ, libc::SIG_IGN);
+    }
+    crate::install_panic_hook();
+    let mut st = crate::State::new();
+    let stdin = std::io::stdin();
+    let stdout = std::io::stdout();
+    let mut out = stdout.lock();
+    for line in stdin.lock().lines() {
+        let Ok(line) = line else { break };
+        if line.trim().is_empty() {
+            continue;
+        }
+        let cmd: Value = serde_json::from_str(&line).unwrap_or(json!({"op": "bad"}));
+        let res = crate::dispatch(&mut st, &cmd);
+        let _ = writeln!(out, "{}", res);
+        let _ = out.flush();
+    }
 }
-pub fn supervise(_script: &str, _events: &str) {
-    eprintln!("supervise: not built yet");
-    std::process::exit(2);
+
+struct Worker {
+    child: Child,
+    stdin: ChildStdin,
+    rx: mpsc::Receiver<Option<String>>,
+}
+
+fn spawn() -> Worker {
+    let exe = std::env::current_exe().unwrap();
+    let mut child = Command::new(exe).arg("worker").stdin(Stdio::piped()).stdout(Stdio::piped())
+        .stderr(Stdio::null()).spawn().expect("cannot spawn worker");
+    let stdin = child.stdin.take().unwrap();
+    let stdout: ChildStdout = child.stdout.take().unwrap();
+    let (tx, rx) = mpsc::channel();
+    std::thread::spawn(move || {
+        let rd = BufReader::new(stdout);
+        for line in rd.lines() {
+            match line {
+                Ok(l) => {
+                    if tx.send(Some(l)).is_err() {
+                        return;
+                    }
+                }
+                Err(_) => break,
+            }
+        }
+        let _ = tx.send(None);
+    });
+    Worker { child, stdin, rx }
+}
+
+fn cleanup(pid: u32) {
+    let mut d = std::env::temp_dir();
+    d.push(format!("physis-shim-{pid}"));
+    let _ = std::fs::remove_dir_all(&d);
+}
+
+fn strip(cmd: &mut Value, res: Value) {
+    if let Some(o) = cmd.as_object_mut() {
+        o.retain(|k, _| !k.starts_with('_'));
+        o.insert("res".to_string(), res);
+    }
+}
+
+pub fn supervise(script: &str, events: &str) {
+    let rd = BufReader::new(std::fs::File::open(script).expect("script"));
+    let mut wr = BufWriter::new(std::fs::File::create(events).expect("events"));
+    let mut w = spawn();
+    for line in rd.lines() {
+        let line = line.unwrap();
+        if line.trim().is_empty() {
+            continue;
+        }
+        let mut cmd: Value = serde_json::from_str(&line).expect("bad script line");
+        let t0 = Instant::now();
+        let sent = writeln!(w.stdin, "{}", line).and_then(|_| w.stdin.flush());
+        let res = if sent.is_err() {
+            None
+        } else {
+            match w.rx.recv_timeout(CASE_TIMEOUT) {
+                Ok(Some(l)) => serde_json::from_str::<Value>(&l).ok(),
+                Ok(None) => None,                 // child died
+                Err(_) => {
+                    let pid = w.child.id();
+                    let _ = w.child.kill();
+                    let _ = w.child.wait();
+                    cleanup(pid);
+                    strip(&mut cmd, json!({"outcome": "hang", "ms": t0.elapsed().as_millis() as u64, "peak": 0, "residual": 0}));
+                    writeln!(wr, "{}", cmd).unwrap();
+                    w = spawn();
+                    continue;
+                }
+            }
+        };
+        match res {
+            Some(r) => {
+                strip(&mut cmd, r);
+            }
+            None => {
+                let pid = w.child.id();
+                let status = w.child.wait().ok();
+                cleanup(pid);
+                let sig = status.and_then(|s| {
+                    use std::os::unix::process::ExitStatusExt;
+                    s.signal()
+                }).unwrap_or(0);
+                strip(&mut cmd, json!({"outcome": "crash", "signal": sig, "ms": t0.elapsed().as_millis() as u64, "peak": 0, "residual": 0}));
+                w = spawn();
+            }
+        }
+        writeln!(wr, "{}", cmd).unwrap();
+    }
+    wr.flush().unwrap();
+    let pid = w.child.id();
+    let _ = w.child.kill();
+    let _ = w.child.wait();
+    cleanup(pid);
 }
